@@ -11,11 +11,32 @@
        the leading columns when it is smaller), fit_transform = fit then transform(X, Y).
    Definitions only. *)
 From Coq Require Import List Arith Lia Bool.
+From Coq Require String.
+Import String.StringSyntax.
+Delimit Scope string_scope with string.
 From TLV Require Import Base.Shape Base.PyList Base.Tensor Base.BigSum Base.Ops Model.Base Model.Regress.
 Import ListNotations.
 
 Fixpoint nl_eqb (a b : list nat) : bool :=
   match a, b with [], [] => true | x :: a', y :: b' => Nat.eqb x y && nl_eqb a' b' | _, _ => false end.
+
+(* the stopping test of both regressors: weight_evolution = |norm_W[-1] - norm_W[-2]| / norm_W[-1] <= tol *)
+Definition rel_small {F : Type} (Op : fops F) (tol a b : F) : bool := fleb Op (fdiv Op (fabs Op (fsub Op a b)) a) tol.
+
+(* the shape tests of CP_PLSR as functions of the shapes alone (the entry points below raise exactly when these say so;
+   harness/props/C19.py regenerates them from the current Python source on every run and re-proves the equalities) *)
+Definition plsr_fit_rejects (sx sy : list nat) : bool :=
+  match sx, sy with
+  | nx :: _, ny :: _ => negb (nx =? ny) || (length sx <? 2) || negb ((length sy =? 1) || (length sy =? 2))
+  | _, _ => true
+  end.
+Definition y_matrix_shape (sy : list nat) : list nat := match sy with [n] => [n; 1] | _ => sy end.
+Definition plsr_new_x_rejects (xshape s : list nat) : bool := negb (nl_eqb (tl xshape) (tl s)).
+Definition plsr_new_y_rejects (yshape sy : list nat) : bool :=
+  negb ((length sy =? 1) || (length sy =? 2)) || negb (nl_eqb (tl yshape) (tl (y_matrix_shape sy))).
+(* the attributes CP_PLSR.fit binds before its component loop (what a fit raising inside the loop leaves behind) *)
+Definition plsr_pre_loop_attrs : list String.string :=
+  ["X_shape_"; "Y_shape_"; "X_mean_"; "Y_mean_"; "X_factors"; "Y_factors"; "coef_"]%string.
 
 (* ---------------------------------------------------------------- n_iterations_ and norm_W_ of the regressors' fit *)
 Section Trace.
@@ -124,6 +145,9 @@ Definition plsr_fit_entry (p : pprm) (X Y : tensor F) : fit_outcome :=
   end.
 
 Definition fitted_width (a : pattrs) : nat := length (comps (a_fit a)).
+(* what the recorded shapes of any fit call look like *)
+Definition attrs_shapes_ok (a : pattrs) : Prop :=
+  2 <= length (a_xshape a) /\ length (a_yshape a) = 2 /\ hd 0 (a_xshape a) = hd 0 (a_yshape a).
 
 (* CP_PLSR.predict(X): per-sample shape check; the loop runs over the CURRENT n_components: a larger value indexes past the
    fitted columns, a smaller one gives a (n, k') projection that cannot be multiplied with the (k, k) coef_ *)
